@@ -786,4 +786,5 @@ func runC13(c *Ctx) {
 		}
 	}
 	c.parallel(len(ordered), func(i int) { c13Run(c, ordered[i]) })
+	runSockLegC13(c)
 }
